@@ -41,6 +41,12 @@ def run_symlinks(tier, seed):
                         (proj / where / name).write_text(text)
                     os.symlink(outside / "mod.py", proj / "linked_mod.py")
                     (proj / "real_mod.py").write_text("import os\n")
+                    os.symlink(proj / "real_mod.py", proj / "alias_mod.py")          # a link that stays INSIDE the project is not a file to analyse either
+                    shared = case / "proj-shared"                                    # sibling whose name starts with the target's name
+                    shared.mkdir()
+                    (shared / name).write_text(text)
+                    (proj / "vendored").mkdir(exist_ok=True)
+                    os.symlink(shared / name, proj / "vendored" / name)
                     evals += 1
                     w = None
                     listed = match_files(proj, files_for_directory(proj), None, ["*.py", "**/*.py"])
@@ -53,10 +59,10 @@ def run_symlinks(tier, seed):
                             DependencyManager(st, proj).write([Security], dry_run=False)
                     except Exception as e:      # noqa
                         w = w or {"clause": "discovery and writers do not raise", "observed": f"{type(e).__name__}: {e}"}
-                    if (outside / name).read_text() != text or (outside / "mod.py").read_text() != "import os\n":
+                    if (outside / name).read_text() != text or (outside / "mod.py").read_text() != "import os\n" or (shared / name).read_text() != text:
                         w = {"clause": "nothing outside the target directory is written, directly or through symlinks",
                              "manifest": f"{where}/{name} -> outside/{name}" if kind == "file-symlink" else name,
-                             "outside file after the run": (outside / name).read_text()}
+                             "outside file after the run": (outside / name).read_text(), "sibling proj-shared file after the run": (shared / name).read_text()}
                     if w is not None and bad is None:
                         bad = dict(w, case=f"{kind} {where or '.'}/{name}")
     finally:
@@ -118,6 +124,63 @@ def run_context_paths(tier, seed):
             "clause": "find_and_fix_paths == spec(include or default includes, exclude or default excludes); filter_paths(all files) == spec(include or registry default includes, exclude)"}
 
 
+def run_cli_selection(tier="quick", seed=0):
+    """BOUNDED stand-in for "every selected file containing a fixable construct is fixed, and only those": the real CLI with a detector-less
+    codemod over a tree whose files all contain the trigger; files changed == reference selection (defaults / user patterns)."""
+    import contextlib
+    import fnmatch
+    import io
+    import json
+    import logging
+    import os
+    import shutil
+    import tempfile
+    from codemodder.code_directory import DEFAULT_EXCLUDED_PATHS, DEFAULT_INCLUDED_PATHS
+    from codemodder.codemodder import run
+    trigger = "x = sum([i for i in range(3)])\n"
+    files = ["app.py", "pkg/settings.local.py", "pkg/models.generated.py", "pkg/0002_auto_1.2.py", "tests/test_app.py", "build/gen.py", "docs/conf.py",
+             "pkg/notes.txt", "pkg.v2/mod.py"]
+    cases = [([], []), (["pkg/*.py"], []), ([], ["pkg/*"]), (["**/*.py"], ["docs/*"])]
+
+    def sel(inc, exc):
+        return sorted(n for n in files if any(fnmatch.fnmatch(n, q) for q in inc) and not any(fnmatch.fnmatch(n, q) for q in exc) and n.endswith(".py"))
+    base = tempfile.mkdtemp(prefix="pyvc_c05cli_")
+    evals, bad = 0, None
+    cwd = os.getcwd()
+    try:
+        os.chdir(base)
+        for inc, exc in cases:
+            root = os.path.join(base, f"p{evals}")
+            for f in files:
+                os.makedirs(os.path.dirname(os.path.join(root, f)), exist_ok=True)
+                open(os.path.join(root, f), "w").write(trigger)
+            args = [root, "--output", os.path.join(base, "o.codetf"), "--codemod-include", "pixee:python/use-generator"]
+            if inc:
+                args += ["--path-include", ",".join(inc)]
+            if exc:
+                args += ["--path-exclude", ",".join(exc)]
+            rootlog = logging.getLogger()
+            for h in list(rootlog.handlers):
+                rootlog.removeHandler(h)
+            with contextlib.redirect_stdout(io.StringIO()), contextlib.redirect_stderr(io.StringIO()):
+                rc = run(args)
+            evals += 1
+            changed = sorted(f for f in files if open(os.path.join(root, f)).read() != trigger)
+            want = sel(inc or DEFAULT_INCLUDED_PATHS, exc or DEFAULT_EXCLUDED_PATHS)
+            if (rc != 0 or changed != want) and bad is None:
+                bad = {"include": inc, "exclude": exc, "status": rc, "files changed": changed, "reference": want,
+                       "not fixed although selected": sorted(set(want) - set(changed)), "fixed although not selected": sorted(set(changed) - set(want))}
+    finally:
+        os.chdir(cwd)
+        shutil.rmtree(base, ignore_errors=True)
+    return {"kind": "bounded", "id": "bounded:files changed by a find-and-fix codemod == selected files that contain the construct (real CLI)",
+            "status": "refuted" if bad else "discharged", "bound": f"{len(cases)} include/exclude combinations over {len(files)} files (dotted base names, dotted directory, tests/, build/, non-Python)",
+            "evaluations": evals, "witness": bad, "func": "codemodder.codemods.base_codemod.FindAndFixCodemod.get_files_to_analyze",
+            "reason": "" if not bad else "the set of files changed differs from the reference selection",
+            "replay": {"reproduced": True, "detail": json.dumps(bad, default=str)} if bad else None,
+            "clause": "set of files changed == {f : f has the trigger and f in spec(include, exclude)}"}
+
+
 def extra_checks(tier="quick", seed=0):
     import os
     import codemodder
@@ -125,4 +188,4 @@ def extra_checks(tier="quick", seed=0):
     from pyvc.api import REG
     src = os.path.dirname(os.path.dirname(os.path.abspath(codemodder.__file__)))
     from contracts.props.C17 import run_parse_args
-    return framescan.obligations(src, REG.contracts) + [run_parse_args(tier, seed, ("--path-include", "--path-exclude")), run_symlinks(tier, seed), run_context_paths(tier, seed)]
+    return framescan.obligations(src, REG.contracts) + [run_parse_args(tier, seed, ("--path-include", "--path-exclude")), run_symlinks(tier, seed), run_context_paths(tier, seed), run_cli_selection(tier, seed)]
